@@ -81,6 +81,7 @@ instance : Show Bytes := ⟨fun b => "x" ++ String.mk (b.flatMap fun x => [hexd 
 instance : Show (List Int) := ⟨fun l => "[" ++ ",".intercalate (l.map toString) ++ "]"⟩
 instance : Show (Int × Int) := ⟨fun p => s!"({p.1}, {p.2})"⟩
 instance : Show Unit := ⟨fun _ => "()"⟩
+instance : Show (List Int × List Int × List Int) := ⟨fun p => "(" ++ Show.sh p.1 ++ ", " ++ Show.sh p.2.1 ++ ", " ++ Show.sh p.2.2 ++ ")"⟩
 instance [Show α] : Show (R α) := ⟨fun r => match r with | .ok v => Show.sh v | .error e => "err:" ++ showE e⟩
 '''
 
@@ -235,7 +236,7 @@ def main():
                 ptypes[x.arg] = x.annotation.id
         ranges = spec.get("ranges", {})
         static = any(getattr(d, "id", None) == "staticmethod" for d in node.decorator_list) or cls is None
-        ncases = 1 if not pyparams else a.n
+        ncases = 1 if (not pyparams or spec.get("mutates")) else a.n
         for _ in range(ncases):
             pyargs, leanargs, proofs = [], [], []
             for p in pyparams:
@@ -254,6 +255,10 @@ def main():
                         vals.append(rand_int(rng, lo, hi))
                     pyargs.append(pymod.PTPTime(*vals))
                     leanargs += [lean_int(v) for v in vals]
+                elif isinstance(t, tuple) and t[0] == "Golay" and spec.get("mutates"):
+                    fresh_obj = pymod.Golay()            # tables as the constructor leaves them: [0] * GOLAY_SIZE
+                    pyargs.append(fresh_obj)
+                    leanargs += ["(List.replicate %d (0 : Int))" % len(getattr(fresh_obj, fld)) for fld, _ in t[1]]
                 elif isinstance(t, tuple) and t[0] == "Golay":
                     if golay is None:
                         golay = pymod.Golay()
@@ -264,6 +269,8 @@ def main():
                                 tab, " ".join(str(x) for x in getattr(golay, tab))))
                     pyargs.append(golay)
                     leanargs += ["tab_" + fld for fld, _ in t[1]]
+                elif isinstance(t, tuple) and not t[1]:
+                    pyargs.append(getattr(pymod, t[0])())       # a class without state (KMP)
                 else:
                     raise SystemExit("selftest: no generator for parameter type %r of %s" % (t, spec["func"]))
             for key in ranges:
@@ -271,6 +278,22 @@ def main():
             if spec["func"] == "bcdTointConvert":
                 pyargs[0] = abs(pyargs[0]) % (1 << 40)          # the Python loop never ends on a negative argument
                 leanargs[0] = lean_int(pyargs[0])
+            if spec["func"] in ("KMP.partial", "KMP.search", "string_matching_boyer_moore_horspool"):
+                # small alphabets so that occurrences, overlaps and fall-backs happen; the empty pattern too, except where
+                # the Python loop would never end (Horspool, empty pattern, non-empty text: the translation says Err.fuel)
+                alpha = rng.choice([b"ab", b"ab", b"abc", bytes([0, 255]), bytes(range(256))])
+                rb = lambda n: bytes(rng.choice(alpha) for _ in range(n))
+                pat = rb(rng.choice([0, 1, 1, 2, 2, 3, 3, 4, 6]))
+                text = rb(rng.choice([0, 1, 2, 3, 5, 8, 13, 21, 40]))
+                if pat and rng.random() < 0.5:
+                    k = rng.randrange(len(text) + 1)
+                    text = text[:k] + pat + text[k:]
+                if spec["func"] == "KMP.partial":
+                    pyargs[-1] = pat; leanargs[-1] = lean_bytes(pat)
+                else:
+                    if spec["func"].startswith("string") and not pat and text:
+                        pat = b"a"
+                    pyargs[-2:] = [text, pat]; leanargs[-2:] = [lean_bytes(text), lean_bytes(pat)]
             if spec["func"] == "endianness_swap":
                 pyargs[1] = rng.choice([2, 2, 4, 4, 0, 1, 3, -2, -4, 8, rand_int(rng)])
                 leanargs[1] = lean_int(pyargs[1])
@@ -283,7 +306,10 @@ def main():
                 pyargs[1] = rng.randrange(1 << 13)
                 leanargs[-2:] = [lean_int(pyargs[1]), lean_int(pyargs[2])]
             try:
-                if static and cls is not None:
+                if spec.get("mutates"):
+                    getattr(obj, "__wrapped__", obj)(*pyargs)        # past the lru_cache, which the translation treats as transparent
+                    r = "(" + ", ".join(canon(getattr(pyargs[0], a_)) for a_ in spec["mutates"]) + ")"
+                elif static and cls is not None:
                     r = canon(obj(*pyargs))
                 elif cls is not None:
                     r = canon(obj(*pyargs))            # unbound method: first argument is self
